@@ -152,14 +152,26 @@ CLAIMED["C14"] = dict(
          "empty predecessor; the block writer's representation invariant (entry area after the 4-byte header, room reserved for the restart table and its count, at most "
          "65535 restarts, restart offsets strictly increasing inside the entry area, block shorter than 2^24) is established by newBlockWriter and kept by add/registerRestart, a "
          "refused add leaves the block unchanged; finish writes the block length into the header, every restart offset as 3 bytes and the restart count as 2 bytes, "
-         "exactly (no truncation); Writer.add returns only for a key strictly greater than the previous one and keeps the writer invariant, flushBlock ends the "
-         "block under construction; AddLog hands a reflog tombstone on as a tombstone and changes nothing but the message."),
+         "exactly (no truncation); Writer.add returns only for a key strictly greater than the previous one and keeps the writer invariant; flushBlock ends the "
+         "block under construction and appends exactly one index entry naming the block's last key and its position; finishSection never replaces a block that holds "
+         "entries without flushing it, and leaves no pending index entry behind for the next section (every level of a multi-level index is complete); AddLog hands a "
+         "reflog tombstone on as a tombstone and changes nothing but the message."),
    note=(TRUST + " Assumed: the value encoders of the four record types stay inside the buffer they are given (interface contract, not yet verified); in-memory zlib "
-         "compression does not fail; finishSection/finishPublicSection, dumpObjectIndex, Writer.Close, AddRef, paddedWriter.Write and headerBytes are trusted. Not decided: "
-         "everything at table level - header/footer/CRC, section positions, padding bytes, index entries at every level (pinned-tree defects F2/F3 of section 5 "
-         "live there and are not reported), object index (F19), keys across blocks of an index, update indices inside the header range, and agreement with an "
-         "independent decoder."),
+         "compression does not fail; finishPublicSection, dumpObjectIndex, Writer.Close, AddRef, paddedWriter.Write and headerBytes are trusted. Not decided: "
+         "header/footer/CRC, section positions, padding bytes, that the index offsets are the positions the reader follows, object index (F19), update indices inside "
+         "the header range, and agreement with an independent decoder."),
    design="4/C14 (layers L1, L2, L4 only)", technique="contract-based deductive verification: representation invariant of the block writer, exact-layout postconditions, field-width preconditions")
+
+CLAIMED["C01"] = dict(
+   text=("Deductive proof of the two innermost codec layers of the round trip, on the real encoder and decoder: (layer 1) for every 64-bit value, getVarInt applied "
+         "to what putVarInt wrote returns that value and consumes exactly the bytes written - both functions are specified against one closed form of the format's "
+         "offset varint for 1..10 bytes, proved by loop invariants; (layer 2) for every previous key, key and 3-bit value type, decodeKey accepts what encodeKey wrote, "
+         "consumes exactly those bytes and returns the same value type and the same key, character by character (prefix from the previous key, suffix from the buffer); "
+         "plus the writer-side facts shared with C14 (block invariant, ascending keys, a reflog tombstone is encoded as a tombstone with no value bytes)."),
+   note=(TRUST + " Not decided - the larger part of the statement: the value codecs of the four record types (layer 3), the block writer/reader pair and restart "
+         "handling on the read side (layer 4), sections, index, padding, footer, zlib log blocks (pinned-tree defect F17 is not reported), and therefore the end-to-end "
+         "statement 'reads back exactly the records written'. No bounded stand-in replaces them."),
+   design="4/C01 (layers L1, L2 only)", technique="contract-based deductive verification: encoder and decoder against one closed-form spec, round-trip lemmas over the two contracts")
 
 NOT_APPLICABLE = {
  "C15": "relational property of two programs in two languages; no deductive verifier for C is installed and rtv reads Go SSA only (DESIGN.md section 4/C15)",
